@@ -90,7 +90,66 @@ def sweep_one(arg):
         viol.append(dict(key=k, text=f'{name} panics on a decodable input: {val[0]} at {val[1]} | shape {shape} | {wit}', replay_src=replay_decoder(name, rec, db, m, shape)))
     out.update(status='violated' if viol else 'discharged', paths=len(res), viol=viol,
                nontrivial=sum(1 for kind, val, pc, log in res if kind == 'ok' and isinstance(val, Agg) and val.variant == 0))
+    # ---- second pass, compositional: the decoders of NESTED messages are answered by contract (Ok(arbitrary value of the
+    # decoded type) or Err; each of them is swept on its own), so the decoder's own logic — loops over repeated fields,
+    # parallel lists, indexing, map insertion — is reached with nested messages PRESENT. Depth-limited generation alone
+    # makes deep nested messages undecodable (missing fields), and then code behind a successful nested decode is never run.
+    try:
+        out2 = compositional_pass(db, name, key, rec, crate, arg_ts, budget)
+        out['paths'] += out2['paths']; out['nontrivial'] = max(out['nontrivial'], out2['nontrivial']); out['compositional'] = dict(paths=out2['paths'], accepted=out2['nontrivial'])
+        for k2, v2 in out2['stats'].items():
+            if isinstance(v2, (int, float)): out['stats'][k2] = out['stats'].get(k2, 0) + v2
+        for v in out2['viol']:
+            if not any(x['key'] == v['key'] for x in out['viol']): out['viol'].append(v)
+        if out['viol']: out['status'] = 'violated'
+    except (Unmodelled, BoundExceeded, KeyError) as u:
+        out['compositional'] = dict(skipped=f'{type(u).__name__}: {u}'[:300])
     return out
+
+
+def compositional_pass(db, name, key, rec, crate, arg_ts, budget):
+    from props import c09
+    ex = Exec(db, loop_bound=40)
+    install(ex)
+    n_before = len(ex.user_models)
+    cnt = [0]
+
+    def nested_read(e, n, a):
+        k2 = None
+        try: k2 = e.db.find_one(re.escape(n), kinds=('fn', 'inst'))
+        except KeyError: return NotImplemented
+        r2 = e.db.body(k2)
+        rt = e.db.ty(r2['crate'], r2['body']['locals'][0]['ty'])
+        targs = [x['ty'] for x in rt['info'].get('args', []) if isinstance(x, dict) and 'ty' in x]
+        if not targs: return NotImplemented
+        cnt[0] += 1
+        if e.choose(2, 'nested_decode') == 1: return err(Opaque('anyhow::Error'))
+        g = c09.Gen(e, e.db, r2['crate'], max_depth=0, max_len=1, prefix=f'nested{cnt[0]}')
+        try:
+            return ok(g.of_type(targs[0], 0, f'nested{cnt[0]}'))
+        except Unmodelled:
+            return ok(Opaque(('decoded', cnt[0])))
+    ex.model(READ_RX, nested_read)
+    mine = ex.user_models[n_before:]; del ex.user_models[n_before:]; ex.user_models[0:0] = mine; ex._um_cache = {}
+
+    def body(ex):
+        g = symgen.SymGen(ex, db, crate, max_depth=1, max_len=2)      # nested messages present but shallow: their decoders are answered by contract
+        vs = [g.of(t) for t in arg_ts]
+        ex.log.append(('shape', list(g.shape)))
+        return ex.call_key(key, vs)
+    res = explore(ex, body, max_paths=20000, budget_s=budget)
+    viol = []
+    for kind, val, pc, log in res:
+        if kind != 'panic': continue
+        st, m = solve(pc, None)
+        if st != 'sat': continue
+        k = f'decoder-panic:{type_of_read(name)}:{val[0].split(":")[0][:50]}'
+        if any(v['key'] == k for v in viol): continue
+        shape = next((x[1] for x in log if x[0] == 'shape'), [])
+        lens = [x for x in shape if '.len=' in x][:8]
+        viol.append(dict(key=k, text=f'{name} panics on a decodable input (nested messages decoded by contract): {val[0]} at {val[1]} | repeated fields {lens}', replay_src=None))
+    return dict(paths=len(res), viol=viol, stats=F.stats_dict(ex.stats),
+                nontrivial=sum(1 for kind, val, pc, log in res if kind == 'ok' and isinstance(val, Agg) and val.variant == 0))
 
 
 def sweep(rep, db, tier):
